@@ -156,6 +156,68 @@ def _rich_part(chk):
             chk.violation('rich|%s|%s' % (css, what), '%s at %s' % (what, tag), {'cfg': 'rich-values', 'group': what[:60], 'selector': css})
 
 
+def _caller_part(chk):
+    """value semantics towards the CALLER: the compiled object is a function of the VALUES passed (pattern text as given, map contents at
+    call time); later mutation of the caller's own dictionaries, or patterns that the parser normalises internally (NUL), must not show"""
+    sv, bs4 = common.import_repo()
+    from soupsieve import css_parser as cp, css_types as ct
+    soup = bs4.BeautifulSoup('<div class="c0 q" lang="en"><p class="q" t="x" id="\ufffdpre">x</p><p>y<b>z</b></p><b>y</b><i><span>s</span></i></div>', 'html.parser')
+    pos = {id(t): n for n, t in enumerate(soup.find_all(True))}
+    for css in ['a|p, :--x', 'p:--x > :--y', '[a|t]', ':--y']:
+        for style in ('dict', 'items'):
+            sv.purge()
+            ns = {'a': 'urn:1', 'b': 'urn:2'}
+            cu = {':--x': 'p.q', ':--y': 'b, i'}
+            ns0, cu0 = dict(ns), dict(cu)
+            obj = sv.compile(css, ns, custom=cu)
+            h = hash(obj)
+            before = [pos[id(t)] for t in obj.select(soup)]
+            fresh0 = cp._cached_css_compile.__wrapped__(css, ct.Namespaces(ns0), ct.CustomSelectors(cu0), 0)
+            # the caller goes on using (and changing) its own dictionaries
+            ns['a'] = 'urn:other'
+            ns['zz'] = 'urn:zz'
+            del ns['b']
+            cu[':--x'] = 'i'
+            cu[':--new'] = 'span'
+            errs = []
+            if hash(obj) != h:
+                errs.append('hash of the compiled selector changed after the caller mutated the dict it had passed')
+            if dict(obj.namespaces) != ns0 or dict(obj.custom) != cu0:
+                errs.append('the compiled selector sees the caller\'s later changes to the map it had passed')
+            if not (obj == fresh0) or hash(obj) != hash(fresh0):
+                errs.append('the compiled selector no longer equals a fresh parse of the values it was compiled from')
+            if [pos[id(t)] for t in obj.select(soup)] != before:
+                errs.append('the compiled selector selects different elements after the caller mutated its map')
+            if sv.compile(css, dict(ns0), custom=dict(cu0)) is not obj:
+                errs.append('compiling again from equal values is not a cache hit / not the same object')
+            other = sv.compile(css, ns, custom=cu)
+            if other == obj or other is obj:
+                errs.append('a selector compiled from the CHANGED maps equals the one compiled from the original maps')
+            chk.count(6)
+            chk.nontrivial('caller:' + css)
+            for what in errs:
+                chk.violation('caller|%s|%s' % (css, what), '%s (pattern %r)' % (what, css), {'cfg': 'caller-values', 'group': what[:70], 'selector': css})
+    # the pattern is part of the value: kept as given, and different texts are different values
+    pairs = [('[id="\x00pre"]', '[id="\ufffdpre"]'), ('p\x00', 'p\ufffd'), (' p', 'p'), ('p ', 'p'), ('P', 'p'), ('p/**/', 'p'), (r'\70', 'p')]
+    sv.purge()
+    for a, b in pairs:
+        oa, ob = sv.compile(a), sv.compile(b)
+        errs = []
+        if oa.pattern != a or ob.pattern != b:
+            errs.append('compile(p).pattern is not p')
+        if oa == ob or not (oa != ob):
+            errs.append('selectors compiled from different pattern texts compare equal')
+        for o, p in ((oa, a), (ob, b)):
+            fr = ct and sv.css_match.SoupSieve(p, cp.CSSParser(p, custom=None, flags=0).process_selectors(), None, None, 0)
+            if not (o == fr) or hash(o) != hash(fr):
+                errs.append('compile(p) differs from an object built from scratch for p')
+        if [pos[id(t)] for t in oa.select(soup)] != [pos[id(t)] for t in ob.select(soup)] and a.replace('\x00', '\ufffd') == b:
+            errs.append('NUL and U+FFFD spellings select differently')
+        chk.count(4)
+        for what in errs:
+            chk.violation('pattern|%r|%s' % (a, what), '%s (patterns %r / %r)' % (what, a, b), {'cfg': 'caller-values', 'group': what[:70], 'selector': a})
+
+
 def _work(H, chunk):
     sv = H['sv']
     bs4 = H['bs4']
@@ -267,5 +329,6 @@ def main(tier):
             case.setdefault('cfg', 'lru-sim')
             chk.violation('lru-sim|' + key, what, case)
     _rich_part(chk)
+    _caller_part(chk)
     _alias_part(chk)
     return chk.finish()
